@@ -203,6 +203,8 @@ def failure_digest(exc: BaseException) -> dict:
 def position_map(doc: dict) -> dict[int, int]:
     """offset -> 0-based global position, over all routines."""
     pm: dict[int, int] = {}
+    if not isinstance(doc.get("routines"), list):
+        return pm
     n = 0
     for r in doc["routines"]:
         for o in r["ops"]:
@@ -213,6 +215,8 @@ def position_map(doc: dict) -> dict[int, int]:
 
 def structural_view(doc: dict) -> list:
     """Routine set with jump targets expressed as global positions (offset-numbering independent)."""
+    if not isinstance(doc.get("routines"), list):
+        return [["<unreadable routine set>", None, None, None, [[str(doc.get("routines")), [], None]]]]
     pm = position_map(doc)
     out = []
     for r in doc["routines"]:
